@@ -256,11 +256,13 @@ fn naive_iter(hay: &[u8], needles: &[u8], ops: &str) -> Vec<String> {
     out
 }
 
-/// `iter|iterd <backend> <needles> <base> <hay> <ops>`
-pub fn iter_op(a: &[&str], dispatched: bool) -> Option<String> {
+/// `iter|iterd|iterdn|iterdr <backend> <needles> <base> <hay> <ops>`; mode 0: the backend's own
+/// `iter()`, 1: `memchr{,2,3}_iter`, 2: `Memchr{,2,3}::new`, 3: `memrchr{,2,3}_iter`
+pub fn iter_op(a: &[&str], mode: u8) -> Option<String> {
     if a.len() != 5 {
         return None;
     }
+    let dispatched = mode != 0;
     let be = backend(a[0], dispatched)?;
     let needles = parse_bytes(a[1])?;
     let base = usz(a[2])?;
@@ -298,9 +300,15 @@ pub fn iter_op(a: &[&str], dispatched: bool) -> Option<String> {
     let ((), allocs) = {
         let (r, al) = alloc_probe::measure(|| -> Option<()> {
             match be {
-                Be::Top => match n.len() {
-                    1 => drive_iter(memchr::memchr_iter(n[0], h), ops, &mut out),
-                    2 => drive_iter(memchr::memchr2_iter(n[0], n[1], h), ops, &mut out),
+                Be::Top => match (mode, n.len()) {
+                    (2, 1) => drive_iter(memchr::Memchr::new(n[0], h), ops, &mut out),
+                    (2, 2) => drive_iter(memchr::Memchr2::new(n[0], n[1], h), ops, &mut out),
+                    (2, _) => drive_iter(memchr::Memchr3::new(n[0], n[1], n[2], h), ops, &mut out),
+                    (3, 1) => drive_iter(memchr::memrchr_iter(n[0], h), ops, &mut out),
+                    (3, 2) => drive_iter(memchr::memrchr2_iter(n[0], n[1], h), ops, &mut out),
+                    (3, _) => drive_iter(memchr::memrchr3_iter(n[0], n[1], n[2], h), ops, &mut out),
+                    (_, 1) => drive_iter(memchr::memchr_iter(n[0], h), ops, &mut out),
+                    (_, 2) => drive_iter(memchr::memchr2_iter(n[0], n[1], h), ops, &mut out),
                     _ => drive_iter(memchr::memchr3_iter(n[0], n[1], n[2], h), ops, &mut out),
                 },
                 Be::Swar => {
@@ -335,7 +343,8 @@ pub fn iter_op(a: &[&str], dispatched: bool) -> Option<String> {
     };
     let out: Vec<String> = out.iter().map(fmt_iter_out).collect();
     // oracle: positions exact; size_hint must bracket (checked here, reported as the value)
-    let naive = naive_iter(&hay, &needles, ops);
+    let swapped: String = ops.chars().map(|c| match c { 'n' => 'b', 'b' => 'n', c => c }).collect();
+    let naive = naive_iter(&hay, &needles, if mode == 3 { &swapped } else { ops });
     let mut oracle = Vec::new();
     for (got, want) in out.iter().zip(naive.iter()) {
         if let Some(k) = want.strip_prefix("ge") {
@@ -491,7 +500,7 @@ pub fn oneshot_op(a: &[&str]) -> Option<String> {
     Some(tail(fmt_opt(r), fmt_opt(oracle), allocs))
 }
 
-fn greedy_fwd(hay: &[u8], needle: &[u8]) -> Vec<usize> {
+pub(crate) fn greedy_fwd(hay: &[u8], needle: &[u8]) -> Vec<usize> {
     let mut out = Vec::new();
     let mut pos = 0;
     while pos <= hay.len() {
@@ -506,7 +515,7 @@ fn greedy_fwd(hay: &[u8], needle: &[u8]) -> Vec<usize> {
     out
 }
 
-fn greedy_rev(hay: &[u8], needle: &[u8]) -> Vec<usize> {
+pub(crate) fn greedy_rev(hay: &[u8], needle: &[u8]) -> Vec<usize> {
     let mut out = Vec::new();
     let mut bound = Some(hay.len());
     while let Some(b) = bound {
